@@ -316,6 +316,7 @@ func (p c02) Exec(c *run.Ctx, idx int, raw json.RawMessage) []run.Result {
 		tags[t] = true
 	}
 	opFacts(gs, doc, opDef, sp.Op.Variables, tags)
+	routeFacts(gs, opDef, r.Merged.TypeURLMap.Get, tags)
 	res.Tags = sortedKeys(tags)
 
 	svcByURL := map[string]*ast.Schema{}
